@@ -26,6 +26,7 @@ def dispatch (line : String) : String :=
   if line.startsWith "core " then CoreDrv.run line else
   if line.startsWith "core2 " then CoreDrv.run2 line else
   if line.startsWith "pexpr " then ParseDrv.run line else
+  if line.startsWith "pprog " then ParseDrv.runProg line else
   match words line with
   | [] => "bad-op"
   | op :: args =>
